@@ -110,15 +110,43 @@ def main():
 
 def memoize_dependency():
     """decimalfp's pure-Python fallback spends 20 ms in the pure function
-    _approx_rational(num, den, min_prec) for every non-terminating quotient;
-    memoising it changes no result (recorded as an assumption of the stand-ins)"""
+    _approx_rational(num, den, min_prec) for every non-terminating quotient
+    (it tries precisions up to the maximum before giving up).  The stand-in
+    processes (a) memoise it and (b) let _div return Fraction(num, den) at
+    once when the reduced denominator has a prime factor other than 2 and 5,
+    which is exactly the case in which the original loop ends with a
+    remainder; every 64th shortcut is cross-checked against the original.
+    Recorded as an assumption of the stand-ins (A6)."""
     import functools
+    from fractions import Fraction
+    from math import gcd
     try:
         import decimalfp._pydecimalfp as P
     except ImportError:
         return
-    if not hasattr(P._approx_rational, "cache_info"):
-        P._approx_rational = functools.lru_cache(maxsize=400000)(P._approx_rational)
+    if hasattr(P._approx_rational, "cache_info"):
+        return
+    P._approx_rational = functools.lru_cache(maxsize=400000)(P._approx_rational)
+    orig_div = P._div
+    count = [0]
+
+    def _div(num, den, min_prec):
+        d = abs(den) // gcd(num, den) if num else 1
+        while d % 2 == 0:
+            d //= 2
+        while d % 5 == 0:
+            d //= 5
+        if d == 1:
+            return orig_div(num, den, min_prec)
+        res = Fraction(num, den)
+        count[0] += 1
+        if count[0] % 64 == 1:
+            ref = orig_div(num, den, min_prec)
+            if type(ref) is not Fraction or ref != res:
+                raise AssertionError(f"stand-in shortcut of decimalfp._div "
+                                     f"differs for {num}/{den}")
+        return res
+    P._div = _div
 
 
 def run_shard(name, spec, i, n):
